@@ -134,13 +134,15 @@ def _discover(repo):
                 out.setdefault('recursion_marker', last.value.func.id)
     out.setdefault('warn_helper', '_warn_about_bad_printer' if '_warn_about_bad_printer' in m.funcs else None)
     out.setdefault('recursion_marker', '_pretty_recursion' if '_pretty_recursion' in m.funcs else _first(n_ for n_ in m.funcs if 'recursion' in n_.lower()))
-    # ---- the literal helper of the string machinery: first package function called by escape_str_for_quote
-    e = m.funcs.get('escape_str_for_quote')
-    if e is not None:
-        for c in ast.walk(e.node):
-            if isinstance(c, ast.Call) and isinstance(c.func, ast.Name) and c.func.id in m.funcs:
-                out['builtin_repr'] = c.func.id
-                break
+    # ---- the literal helper of the numeric / string printers: the function that returns  <type parameter>.__repr__(<value parameter>)
+    for fname, f in m.funcs.items():
+        if f.parent is not None or len(f.params) != 2:
+            continue
+        for r in ast.walk(f.node):
+            if isinstance(r, ast.Return) and isinstance(r.value, ast.Call) and isinstance(r.value.func, ast.Attribute) \
+                    and r.value.func.attr == '__repr__' and isinstance(r.value.func.value, ast.Name) and r.value.func.value.id == f.params[0] \
+                    and len(r.value.args) == 1 and isinstance(r.value.args[0], ast.Name) and r.value.args[0].id == f.params[1]:
+                out.setdefault('builtin_repr', fname)
     out.setdefault('builtin_repr', '_builtin_repr' if '_builtin_repr' in m.funcs else None)
     # ---- the sort-key class of the dict printer: the class whose __lt__ tries the natural order
     for cname, ci in m.classes.items():
